@@ -54,8 +54,12 @@ class _InMemoryConsumer(ConsumerT):
     async def finish(self) -> None:
         await asyncio.sleep(0)
         self._started = False
-        while self._queue.processing:
-            self._queue.put_back(self._queue.processing.pop())
+        # give back only the messages held by this consumer,
+        # other consumers of the same queue keep theirs
+        for msg in list(self._queue.processing):
+            if self._queue.taken_by.get(msg.key.id_) is self:
+                self._queue.processing.remove(msg)
+                self._queue.put_back(msg)
         await asyncio.sleep(0)
 
     def __update_delayed(self) -> None:
@@ -123,6 +127,7 @@ class _InMemoryConsumer(ConsumerT):
                 self.__update_delayed()
 
         self._queue.processing.add(msg)
+        self._queue.taken_by[msg.key.id_] = self
 
         await asyncio.sleep(0)
         return (msg.key, msg.payload, msg.parameters)
